@@ -104,6 +104,8 @@ type attempt struct {
 	before   []byte
 	after    []byte
 	readErr  error
+	// waitAccepts: 1/0 = what Wait.Accepts says for the waiting node, -1 = no waiting node with a wait
+	waitAccepts int
 }
 
 // state is a reached session state: the live execution that reached it and its JSON.
@@ -173,6 +175,18 @@ func tryResume(st *state, ev string, fault string, live bool) (*attempt, error) 
 	a.session = s
 	a.before, _ = json.Marshal(s)
 	res := world.MakeResume(ev)
+	// what the wait itself says about this type of resume (public API), for the waiting run's node
+	a.waitAccepts = -1
+	for _, r := range s.Runs() {
+		if r.Status() == flows.RunStatusWaiting && r.Flow() != nil {
+			if _, node, err := r.PathLocation(); err == nil && node.Router() != nil && node.Router().Wait() != nil {
+				a.waitAccepts = 0
+				if node.Router().Wait().Accepts(res) {
+					a.waitAccepts = 1
+				}
+			}
+		}
+	}
 	a.panicked = mc.Guard(func() { a.sprint, a.err = s.Resume(res) })
 	if a.panicked == "" {
 		a.after, _ = json.Marshal(s)
@@ -461,6 +475,9 @@ func evaluate(c *mc.Ctx, st *state, rp *replay, count bool) []sm.Problem {
 				add("rejected-101:but-session-was-waiting", "error 101 for a waiting session")
 			}
 		case engine.ErrorResumeNoWaitingRun, engine.ErrorResumeRejectedByWait:
+			if ee.Code() == engine.ErrorResumeRejectedByWait && a.waitAccepts == 1 {
+				add("rejected-103:but-the-wait-accepts-this-type:ev="+evType(rp.Ev), "resume rejected as not accepted by the wait, but Wait.Accepts is true for a %s resume", evType(rp.Ev))
+			}
 			if !wasWaiting {
 				add(fmt.Sprintf("rejected-%d:but-session-not-waiting", ee.Code()), "error %d for a session that is not waiting", ee.Code())
 			}
@@ -481,6 +498,11 @@ func evaluate(c *mc.Ctx, st *state, rp *replay, count bool) []sm.Problem {
 		}
 		if !wasWaiting {
 			add("accepted:resume-of-non-waiting-session:fault="+faultClass, "Resume returned nil for a session that was not waiting")
+		}
+		// the wait does not accept this type of resume => it must have been rejected (unless an
+		// impossible condition failed the session first)
+		if a.waitAccepts == 0 && s.Status() != flows.SessionStatusFailed {
+			add("accepted:resume-type-the-wait-does-not-accept:ev="+evType(rp.Ev)+":fault="+faultClass, "the wait at the waiting node does not accept a %s resume (Wait.Accepts is false) but Resume returned nil and the session is %s", evType(rp.Ev), s.Status())
 		}
 		switch s.Status() {
 		case flows.SessionStatusWaiting, flows.SessionStatusCompleted, flows.SessionStatusFailed:
